@@ -2,7 +2,7 @@
 """Regenerate /verif/MANIFEST.json from props.json (claimed checks) and properties.jsonl."""
 import json, os
 V = os.path.dirname(os.path.dirname(os.path.abspath(__file__)))
-props = json.load(open(os.path.join(V, "props.json")))
+props = {f[:-5]: json.load(open(os.path.join(V, "props", f))) for f in sorted(os.listdir(os.path.join(V, "props"))) if f.endswith(".json")}
 allp = [json.loads(l) for l in open(os.path.join(V, "properties.jsonl")) if l.strip()]
 man = json.load(open(os.path.join(V, "MANIFEST.json")))
 checks, na = [], []
